@@ -340,6 +340,15 @@ pub fn c15(cx: &RunCtx) {
                 }
                 _ => {}
             }
+            // exponents at and beyond 2^32 (where an Integer power routine gives up) over the bases whose powers stay finite
+            if *name == "pow" {
+                for b in ["(-1)", "1", "0", "(-1.0)", "0.5", "(-0.5)", "1.0000000001", "(-2)", "2"] {
+                    for e in ["4294967295", "4294967296", "4294967297", "4294967298", "1099511627776", "1099511627777", "9007199254740991", "9007199254740992", "(-4294967296)", "(-4294967297)"] {
+                        inputs.push(format!("pow({},{})", b, e));
+                        inputs.push(format!("{}^{}", b, e));
+                    }
+                }
+            }
             // fractional operands with four decimal digits, 0.0001..4 (and the negatives with three): two copies of one
             // iteration that start or stop differently (Lambert W, series switch-overs) part in the last bit for a few
             // per cent of such arguments and for none with fewer digits
